@@ -123,7 +123,7 @@ Proof.
     + rewrite (Hlater eq_refl). cbn [x_tests]. apply beq_eq in Eb. subst id. apply alookup_aset_same.
     + destruct (find _ _); [reflexivity|]. cbn [x_tests].
       apply alookup_aset_other. intros E. subst id. now rewrite beq_refl in Eb.
-  - destruct drop; cbn [negb find].
+  - destruct drop; cbn [negb] in *; cbn [orb find].
     + destruct (find _ _); reflexivity.
     + destruct (beq (fst e) id) eqn:Eb.
       * rewrite (Hlater eq_refl). cbn [x_tests]. apply beq_eq in Eb. subst id. apply alookup_aset_same.
@@ -152,4 +152,249 @@ Proof.
   - apply find_some in Ef as [_ Hb]. apply beq_eq in Hb. subst id.
     cbn [app map]. rewrite render_cons. unfold to_entry at 1. cbn [fst snd]. now rewrite emit_entry_frame.
   - reflexivity.
+Qed.
+
+(* ---------- examineSnaps on one entry-structured file ---------- *)
+
+Definition centry_ok (e : centry) : Prop :=
+  recognised (fst e) /\ wf_entry (to_entry e).
+
+Definition stay (reg skp : list bytes) (drop : bool) (es : list centry) : list centry :=
+  filter (fun e => kept reg skp e || negb drop) es.
+
+Definition pick (st : list centry) (id : bytes) : list centry :=
+  match find (fun e => beq (fst e) id) st with Some e => [e] | None => [] end.
+
+Lemma find_filter_nodup (p : centry -> bool) es e :
+  NoDup (map fst es) -> In e es ->
+  find (fun e0 => beq (fst e0) (fst e)) (filter p es) = if p e then Some e else None.
+Proof.
+  induction es as [|a es IH]; intros Hnd Hin; [destruct Hin|].
+  inversion Hnd as [|? ? Hnotin Hnd']; subst. cbn [filter].
+  destruct Hin as [->|Hin].
+  - destruct (p e) eqn:Ep.
+    + cbn [find]. now rewrite beq_refl.
+    + match goal with |- ?x = None => destruct x as [e'|] eqn:Ef end; [|reflexivity]. exfalso.
+      apply find_some in Ef as [Hin Hb]. apply filter_In in Hin as [Hin _]. apply beq_eq in Hb.
+      apply Hnotin. rewrite <- Hb. now apply in_map.
+  - assert (Hne : fst a <> fst e) by (intros E; apply Hnotin; rewrite E; now apply in_map).
+    destruct (p a); [cbn [find]; destruct (beq_spec (fst a) (fst e)); [contradiction|]|]; now apply IH.
+Qed.
+
+(* in file order the staying entries are emitted exactly once each, in place *)
+Lemma pick_file_order (p : centry -> bool) es :
+  NoDup (map fst es) -> flat_map (pick (filter p es)) (map fst es) = filter p es.
+Proof.
+  intros Hnd.
+  assert (H : forall l, (forall e, In e l -> In e es) ->
+              flat_map (pick (filter p es)) (map fst l) = filter p l).
+  { induction l as [|e l IH]; intros Hsub; [reflexivity|].
+    cbn [map flat_map filter]. rewrite IH by (intros e' He'; apply Hsub; now right).
+    unfold pick. rewrite (find_filter_nodup p es e Hnd (Hsub e (or_introl eq_refl))).
+    destruct (p e); reflexivity. }
+  now apply H.
+Qed.
+
+Lemma centry_lines_ok es :
+  Forall centry_ok es ->
+  Forall (fun e => recognised (fst e) /\ ~ In endseq (split_nl (snd e))) es /\
+  Forall wf_entry (map to_entry es).
+Proof.
+  intros H. split.
+  - eapply Forall_impl; [|exact H]. intros e [Hr [_ [_ [_ [_ Hb]]]]]. split; assumption.
+  - apply Forall_map. eapply Forall_impl; [|exact H]. now intros e [_ Hw].
+Qed.
+
+(* complete description of examineSnaps on one well-formed file *)
+Theorem examine_file_entries reg skp update sort es :
+  Forall centry_ok es -> NoDup (map fst es) ->
+  let obsolete := map fst (filter (fun e => negb (kept reg skp e)) es) in
+  let ids := map fst es in
+  let should_sort := sort && negb (is_sorted_nat ids) in
+  let should_update := update && (match obsolete with [] => false | _ => true end) in
+  examine_file reg skp update sort (render (map to_entry es)) =
+  (obsolete,
+   if negb should_update && negb should_sort then None
+   else Some (render (map to_entry
+          (flat_map (pick (stay reg skp update es)) (if should_sort then sort_nat ids else ids))))).
+Proof.
+  intros Hok Hnd obsolete ids should_sort should_update.
+  destruct (centry_lines_ok es Hok) as [Hl Hw].
+  unfold examine_file, render. rewrite scan_unlines by now apply render_lines_safe.
+  rewrite (examine_entries reg skp update es _ Hl).
+  set (x := fold_left _ es _).
+  assert (Hids : x_ids x = ids) by (unfold x; now rewrite fold_scan_ids).
+  assert (Hobs : x_obsolete x = obsolete) by (unfold x; now rewrite fold_scan_obsolete).
+  rewrite Hids, Hobs. fold should_sort. fold should_update.
+  destruct (negb should_update && negb should_sort); [reflexivity|].
+  f_equal. f_equal.
+  apply (emit_all_render (stay reg skp update es) (x_tests x)).
+  - intros id. unfold x. rewrite fold_scan_tests by assumption. cbn [x_tests alookup].
+    unfold stay. destruct (find _ _); reflexivity.
+  - unfold stay. clear -Hnd. induction es as [|e es IH]; [constructor|].
+    inversion Hnd as [|? ? Hn Hnd']; subst. cbn [filter].
+    destruct (kept reg skp e || negb update); [|now apply IH].
+    cbn [map]. constructor; [|now apply IH].
+    intros Hin. apply Hn. apply in_map_iff in Hin as [e' [He' Hin]]. apply filter_In in Hin as [Hin _].
+    rewrite <- He'. now apply in_map.
+Qed.
+
+(* pruning without sorting: the surviving entries, byte-identical and in place *)
+Corollary examine_file_prune reg skp es :
+  Forall centry_ok es -> NoDup (map fst es) ->
+  filter (fun e => negb (kept reg skp e)) es <> [] ->
+  examine_file reg skp true false (render (map to_entry es)) =
+  (map fst (filter (fun e => negb (kept reg skp e)) es),
+   Some (render (map to_entry (filter (kept reg skp) es)))).
+Proof.
+  intros Hok Hnd Hst. rewrite examine_file_entries by assumption. cbn zeta.
+  destruct (filter _ es) as [|o os] eqn:E; [contradiction|]. cbn [map andb negb].
+  f_equal. f_equal. f_equal. f_equal. unfold stay. cbn [negb].
+  rewrite pick_file_order by assumption. apply filter_ext. intros e. apply orb_false_r.
+Qed.
+
+(* registered (addressed) and skip-protected entries always stay *)
+Lemma addressed_stays reg skp drop es e :
+  In e es -> mem_bytes (fst e) reg = true -> In e (stay reg skp drop es).
+Proof.
+  intros Hin Hm. apply filter_In. split; [assumption|]. unfold kept, keep_id. now rewrite Hm.
+Qed.
+
+(* insertion sort by the natural comparator is a permutation *)
+Lemma insert_nat_perm x l : Permutation (insert_nat x l) (x :: l).
+Proof.
+  induction l as [|y l IH]; [reflexivity|]. cbn [insert_nat].
+  destruct (nat_lt x y); [reflexivity|].
+  rewrite IH. apply perm_swap.
+Qed.
+
+Lemma sort_nat_perm l : Permutation (sort_nat l) l.
+Proof.
+  induction l as [|x l IH]; [reflexivity|]. unfold sort_nat in *. cbn [fold_right].
+  rewrite insert_nat_perm. now constructor.
+Qed.
+
+(* whatever the order of emission (file order or sorted), every staying entry is written exactly once
+   with the body it had, and nothing else is written *)
+
+Lemma pick_perm (st : list centry) : forall ids ids',
+  Permutation ids ids' -> Permutation (flat_map (pick st) ids) (flat_map (pick st) ids').
+Proof.
+  intros ids ids' H. induction H; cbn [flat_map].
+  - reflexivity.
+  - now apply Permutation_app_head.
+  - rewrite !app_assoc. apply Permutation_app_tail. apply Permutation_app_comm.
+  - etransitivity; eassumption.
+Qed.
+
+Theorem rewrite_preserves_content reg skp drop es (sorted : bool) :
+  Forall centry_ok es -> NoDup (map fst es) ->
+  Permutation (flat_map (pick (stay reg skp drop es)) (if sorted then sort_nat (map fst es) else map fst es))
+              (stay reg skp drop es).
+Proof.
+  intros Hok Hnd. unfold stay.
+  rewrite <- (pick_file_order (fun e => kept reg skp e || negb drop) es Hnd) at 2.
+  apply pick_perm. destruct sorted; [apply sort_nat_perm|reflexivity].
+Qed.
+
+(* ---------- corollaries used by C07 / C09 / C10 ---------- *)
+
+(* report-only (removal not allowed): nothing is dropped, whatever the sort option does *)
+Lemma stay_report_only reg skp es : stay reg skp false es = es.
+Proof.
+  unfold stay. induction es as [|e es IH]; [reflexivity|]. cbn [filter].
+  replace (kept reg skp e || negb false) with true by (cbn [negb]; now rewrite orb_true_r).
+  now rewrite IH.
+Qed.
+
+(* clean mode: exactly the reported entries are dropped *)
+Lemma stay_clean reg skp es : stay reg skp true es = filter (kept reg skp) es.
+Proof. unfold stay. apply filter_ext. intros e. cbn [negb]. apply orb_false_r. Qed.
+
+Lemma obsolete_exact reg skp update sort es :
+  Forall centry_ok es -> NoDup (map fst es) ->
+  fst (examine_file reg skp update sort (render (map to_entry es))) =
+  map fst (filter (fun e => negb (kept reg skp e)) es).
+Proof. intros Hok Hnd. now rewrite examine_file_entries. Qed.
+
+(* whenever the file is rewritten, its new content is the rendering of a permutation of the
+   staying entries: each written exactly once with the body it had; nothing else is written *)
+Theorem rewrite_content reg skp update sort es nf :
+  Forall centry_ok es -> NoDup (map fst es) ->
+  snd (examine_file reg skp update sort (render (map to_entry es))) = Some nf ->
+  exists out, nf = render (map to_entry out) /\ Permutation out (stay reg skp update es).
+Proof.
+  intros Hok Hnd. rewrite examine_file_entries by assumption. cbn zeta. cbn [snd].
+  destruct (negb _ && negb _); [discriminate|]. intros [= <-].
+  eexists. split; [reflexivity|].
+  destruct (sort && negb (is_sorted_nat (map fst es))).
+  - apply (rewrite_preserves_content reg skp update es true Hok Hnd).
+  - apply (rewrite_preserves_content reg skp update es false Hok Hnd).
+Qed.
+
+(* an entry addressed in this run (registered) survives every rewrite with its body *)
+Theorem addressed_survives reg skp update sort es nf e :
+  Forall centry_ok es -> NoDup (map fst es) -> In e es -> mem_bytes (fst e) reg = true ->
+  snd (examine_file reg skp update sort (render (map to_entry es))) = Some nf ->
+  exists out, nf = render (map to_entry out) /\ In e out /\ NoDup (map fst out).
+Proof.
+  intros Hok Hnd Hin Hm Hs.
+  destruct (rewrite_content reg skp update sort es nf Hok Hnd Hs) as [out [-> Hp]].
+  exists out. split; [reflexivity|]. split.
+  - apply (Permutation_in _ (Permutation_sym Hp)). now apply addressed_stays.
+  - apply (Permutation_NoDup (Permutation_map fst (Permutation_sym Hp))).
+    unfold stay. clear -Hnd. induction es as [|a es IH]; [constructor|].
+    inversion Hnd as [|? ? Hn Hnd']; subst. cbn [filter].
+    destruct (kept reg skp a || negb update); [|now apply IH].
+    cbn [map]. constructor; [|now apply IH].
+    intros Hi. apply Hn. apply in_map_iff in Hi as [e' [He' Hi]]. apply filter_In in Hi as [Hi _].
+    rewrite <- He'. now apply in_map.
+Qed.
+
+(* ... and is never reported *)
+Lemma addressed_not_reported reg skp update sort es (e : centry) :
+  Forall centry_ok es -> NoDup (map fst es) -> mem_bytes (fst e) reg = true ->
+  ~ In (fst e) (fst (examine_file reg skp update sort (render (map to_entry es)))).
+Proof.
+  intros Hok Hnd Hm. rewrite obsolete_exact by assumption. intros Hin.
+  apply in_map_iff in Hin as [e' [He' Hf]]. apply filter_In in Hf as [_ Hk].
+  unfold kept, keep_id in Hk. rewrite He', Hm in Hk. discriminate.
+Qed.
+
+(* pruning is idempotent: after a clean-mode rewrite nothing is stale any more *)
+Lemma prune_idempotent reg skp es :
+  filter (fun e => negb (kept reg skp e)) (filter (kept reg skp) es) = [].
+Proof.
+  induction es as [|e es IH]; [reflexivity|]. cbn [filter].
+  destruct (kept reg skp e) eqn:E; [cbn [filter]; now rewrite E|assumption].
+Qed.
+
+(* ---------- -count: the live ids of a test that made k calls in each of `count` executions ---------- *)
+
+Lemma occ_ids_uniform fmt t k count i :
+  0 < count -> 1 <= i <= k ->
+  In (fmt t i) (occ_ids fmt t (count * k) count).
+Proof.
+  intros Hc [H1 Hk]. unfold occ_ids.
+  rewrite Nat.mul_comm, Nat.div_mul by lia.
+  destruct (Nat.ltb_spec 1 k) as [Hlt|Hge].
+  - apply in_or_app. left. apply in_map. apply in_seq. lia.
+  - assert (i = k) by lia. subst. apply in_or_app. right. now left.
+Qed.
+
+(* every id addressed in a run of `count` uniform executions is registered for Clean *)
+Lemma registered_tests_uniform cleanup path t k count i :
+  0 < count -> 1 <= i <= k -> alookup2 (path, t) cleanup = Some (count * k) ->
+  mem_bytes (snapshot_occ_fmt t i) (registered_tests cleanup path count) = true.
+Proof.
+  intros Hc Hi Hl.
+  assert (Hin : In (snapshot_occ_fmt t i) (registered_tests cleanup path count)).
+  { unfold registered_tests. apply in_flat_map.
+    induction cleanup as [|[[p' t'] n] cl IH]; cbn [alookup2] in Hl; [discriminate|].
+    destruct (key2_eqb_spec (path, t) (p', t')) as [E|Hne].
+    - injection E as <- <-. injection Hl as ->. exists ((path, t), count * k). split; [now left|].
+      cbn [fst snd]. rewrite beq_refl. now apply occ_ids_uniform.
+    - destruct (IH Hl) as [x [Hx1 Hx2]]. exists x. split; [now right|assumption]. }
+  clear -Hin. induction (registered_tests cleanup path count) as [|y l IH]; [destruct Hin|].
+  cbn [mem_bytes]. destruct Hin as [->|Hin]; [now rewrite beq_refl|]. rewrite IH by assumption. apply orb_true_r.
 Qed.
